@@ -959,4 +959,173 @@ mut(
     mention=["index"],
 )
 
+# ------------------------------------------------------------------------------ C07
+ACU = "cdd/shared/ast_cst_utils.py"
+mut(
+    "c07-backup-after-write",
+    "C07",
+    "C07.write",
+    "cdd/compound/doctrans.py",
+    """            f.write("".join(map(attrgetter("value"), cst_list)))
+""",
+    """            f.write("".join(map(attrgetter("value"), cst_list)))
+        ast_parse("".join(map(attrgetter("value"), cst_list)))
+""",
+)
+mut(
+    "c07-join-inside-with-calls-package",
+    "C07",
+    "C07.write",
+    "cdd/compound/doctrans.py",
+    """            f.write("".join(map(attrgetter("value"), cst_list)))
+""",
+    """            doctransify_cst(cst_list, node)
+            f.write("".join(map(attrgetter("value"), cst_list)))
+""",
+)
+mut(
+    "c07-delete-without-docstr-check",
+    "C07",
+    "C07.frame",
+    ACU,
+    "    elif not new_doc_str and existing_doc_str:\n        del cst_list[cst_idx + 1]\n",
+    "    elif not new_doc_str:\n        del cst_list[cst_idx + 1]\n",
+)
+mut(
+    "c07-existing-docstr-any-triple-quoted",
+    "C07",
+    "C07.frame",
+    ACU,
+    "        isinstance(cur_node_after_func, TripleQuoted) and cur_node_after_func.is_docstr\n",
+    "        isinstance(cur_node_after_func, TripleQuoted)\n",
+)
+mut(
+    "c07-mutate-two-after",
+    "C07",
+    "C07.frame",
+    ACU,
+    """        cst_list.insert(
+            cst_idx + 1,
+            formatted_doc_str(new_doc_str),
+        )""",
+    """        cst_list.insert(
+            cst_idx + 2,
+            formatted_doc_str(new_doc_str),
+        )""",
+)
+mut(
+    "c07-doctrans-clears-decorators",
+    "C07",
+    "C07.writeset",
+    "cdd/compound/doctrans_utils.py",
+    "        node.body = list(map(self.visit, node.body))\n",
+    "        node.decorator_list = []\n        node.body = list(map(self.visit, node.body))\n",
+)
+mut(
+    "c07-args-filtered",
+    "C07",
+    "C07.writeset",
+    "cdd/compound/doctrans_utils.py",
+    "            node.args.args = list(map(set_arg, map(attrgetter(\"arg\"), node.args.args)))\n",
+    "            node.args.args = list(map(set_arg, filter(None, map(attrgetter(\"arg\"), node.args.args))))\n",
+)
+# ------------------------------------------------------------------------------ C12
+CF = "cdd/shared/conformance.py"
+mut(
+    "c12-write-not-gated-by-replaced",
+    "C12",
+    "C12.gate",
+    CF,
+    "        if rewrite_at_query.replaced:\n            cdd.shared.emit.file.file(parsed_ast, filename, mode=\"wt\", skip_black=False)\n",
+    "        cdd.shared.emit.file.file(parsed_ast, filename, mode=\"wt\", skip_black=False)\n",
+)
+mut(
+    "c12-write-not-gated-by-cmp",
+    "C12",
+    "C12.gate",
+    CF,
+    "    if not cmp_ast(original_node, replacement_node):\n",
+    "    if original_node is not None:\n",
+)
+mut(
+    "c12-writes-truth-file-name",
+    "C12",
+    "C12.targets",
+    CF,
+    "                    filename=filename,\n                    search=search,",
+    "                    filename=truth_file if fun_name == args.truth else filename,\n                    search=search,",
+)
+mut(
+    "c12-new-visitor-without-delegation",
+    "C12",
+    "C12.visitor",
+    "cdd/shared/ast_utils.py",
+    "    def visit_FunctionDef(self, node):\n        \"\"\"\n        visits the `FunctionDef`, if it's the right one, replace it\n",
+    "    def visit_ClassDef(self, node):\n        \"\"\"skip classes\"\"\"\n        return node\n\n    def visit_FunctionDef(self, node):\n        \"\"\"\n        visits the `FunctionDef`, if it's the right one, replace it\n",
+    mention=["visit_ClassDef"],
+)
+# ------------------------------------------------------------------------------ C13
+SP = "cdd/compound/sync_properties.py"
+mut(
+    "c13-default-index-regression",
+    "C13",
+    "C13.index",
+    "cdd/shared/ast_utils.py",
+    """                if idx is not None:
+                    # `defaults` is right-aligned with `args`; `_idx` does not count `self`/`cls`
+                    idx += (
+                        int(
+                            len(node.args.args) > 0
+                            and node.args.args[0].arg in frozenset(("self", "cls"))
+                        )
+                        + len(node.args.defaults)
+                        - len(node.args.args)
+                    )
+                if idx is not None and 0 <= idx < len(node.args.defaults):""",
+    """                if idx is not None and 0 <= idx < len(node.args.defaults):""",
+    mention=["visit_FunctionDef"],
+)
+mut(
+    "c13-replace-every-match",
+    "C13",
+    "C13.once",
+    "cdd/shared/ast_utils.py",
+    """        if (
+            not self.replaced
+            and hasattr(node, "_location")
+            and node._location == self.search
+        ):
+            self.replaced = True
+            return self.replacement_node
+        else:""",
+    """        if hasattr(node, "_location") and node._location == self.search:
+            self.replaced = True
+            return self.replacement_node
+        else:""",
+)
+mut(
+    "c13-input-file-touched",
+    "C13",
+    "C13.io",
+    SP,
+    '    with open(path.realpath(path.expanduser(input_filename)), "rt") as f:\n',
+    '    with open(path.realpath(path.expanduser(input_filename)), "r+") as f:\n',
+)
+mut(
+    "c13-writes-backup",
+    "C13",
+    "C13.io",
+    SP,
+    '    cdd.shared.emit.file.file(output_ast, output_filename, mode="wt", skip_black=False)\n',
+    '    cdd.shared.emit.file.file(output_ast, output_filename + ".new", mode="wt", skip_black=False)\n',
+)
+mut(
+    "c13-eval-ungated",
+    "C13",
+    "C13.eval",
+    SP,
+    "    if input_eval:\n        if input_param.count",
+    "    if input_eval or input_param.isupper():\n        if input_param.count",
+)
+
 MUTANTS = M
